@@ -329,7 +329,7 @@ PROPS['C01'] = {
     'quick_configs': ['default'],
     'thorough_configs': ALL,
     'controls': ['N1'],
-    'floors': {'default': {'N1': 6, 'R1.2': 6, 'R1.3': 1, 'R1.5': 6, 'R3.7': 1}},
+    'floors': {'default': {'N1': 6, 'R1.2': 6, 'R1.3': 1, 'R1.5': 6, 'R3.7': 1, 'R1.7': 120}},
     'rule_text': 'obligations: N1 instances (shared with C15), one per mutation site of create_file/create_dir/'
                  'rename_internal (must lie on the `name is free` arm), the emptiness guard of remove, the '
                  'publish-before-delete order of rename, and one per intermediate path lookup; non-trivial = dominance or '
@@ -338,8 +338,11 @@ PROPS['C01'] = {
                    '(invalid name, already exists, directory not empty, not a directory) is taken before the first '
                    'structural device write, on every path. Mutation sites are calls that may reach an unguarded device '
                    'write in the mono call graph. R1.4 (rename publishes before it deletes) is violated on the pinned '
-                   'tree and listed as a known finding. Equality with an in-memory tree model over histories is not '
-                   'decided (runtime values).',
+                   'tree and listed as a known finding. R3.7: the free-slot search restarts its run at a used slot (a new '
+                   'entry never overwrites a live one). R1.7: no panic site of the directory / entry / time code is left '
+                   'undischarged (a panic is not a documented outcome): interval analysis from every API root, residue in '
+                   'tables/discharge.json. Equality with an in-memory tree model over histories is not decided (runtime '
+                   'values).',
     'claim': 'Failure atomicity with respect to user errors as ordering constraints on all paths; model equivalence is '
              'not claimed.',
     'level_note': 'recursion into the same operation on a sub-path is judged in its own right',
